@@ -5,3 +5,5 @@ import NitroVerif.Props.C19
 import NitroVerif.Props.C20
 import NitroVerif.Props.C16
 import NitroVerif.Props.C17
+import NitroVerif.Props.C08
+import NitroVerif.Props.C06Handoff
